@@ -849,6 +849,18 @@ func (c *FnCtx) evalCall(env *Env, x *ECall) Val {
 			panic(specError("unknown type " + tn))
 		}
 		return Val{T: tBool, E: fmt.Sprintf("(= (i-tag %s) %d)", v.E, c.ty.TypeID(t))}
+	case "implements":
+		// implements(x, I): the dynamic type of the (non-nil) interface value x implements interface type I
+		v := arg(0)
+		tn := typeArgText(x.Args[1])
+		t := c.eng.resolveType(env.specPkg, tn)
+		if t == nil {
+			panic(specError("unknown type " + tn))
+		}
+		if _, ok := t.Underlying().(*types.Interface); !ok {
+			panic(specError("implements: " + tn + " is not an interface type"))
+		}
+		return Val{T: tBool, E: c.implementsPred(v.E, t)}
 	case "cast":
 		v := arg(0)
 		tn := typeArgText(x.Args[1])
